@@ -20,11 +20,11 @@ MODES = {
     'C04': ['bnd_c04'],
     'C05': ['bnd_tables'],
     'C06': ['bnd_tables', 'c06_positions'],
-    'C07': ['bnd_c07', 'c07_ol', 'c07_compose'],
+    'C07': ['bnd_c07', 'c07_ol', 'c07_compose', 'c16_compose'],
     'C08': ['bnd_c08', 'c08_elements'],
     'C09': ['bnd_c09', 'c16_affix'],
     'C11': ['bnd_doc', 'bnd_tables', 'bnd_mut', 'c02_elements'],
-    'C12': ['bnd_c12'],
+    'C12': ['bnd_c12', 'c12_contflag'],
     'C13': ['bnd_c13', 'c13_minwrap'],
     'C14': ['bnd_c14', 'c14_hardwrap', 'c14_elements'],
     'C15': ['bnd_c15'],
@@ -52,6 +52,7 @@ LEGACY_BOUND = {
     'c14_hardwrap': '3 documents x widths 3..=8: an id whose first word is hard-wrapped still yields exactly one fragment marker',
 }
 STANDS_FOR = {
+    'c12_contflag': 'add_text / flush_word: when the preformatted-continuation tag is chosen (the two smallest documents showing finding D24)',
     'c02_elements': 'the width bound and the overflow option over the element catalogue (elements the seeded grammars do not produce)',
     'c08_elements': 'process_dom_node (<a> arm: href / name / content-less links), start_link / end_link through every container kind',
     'c16_compose': 'do_render_node BlockQuote / Ul arms with a user decorator: prefix measured by display width, verbatim on every line',
